@@ -272,9 +272,10 @@ class TecTranslator:
     def file_const(self, name):
         if name in self.file_consts:
             return self.file_consts[name]
-        srcdir = os.path.join(self.repo, "src")
-        unity = "".join('#include "%s"\n' % os.path.join(srcdir, f) for f in sorted(os.listdir(srcdir)) if f.endswith(".cpp"))
-        cmd = ["clang++-14", "-x", "c++", "-std=gnu++17", "-I" + os.path.join(self.repo, "include"), "-fsyntax-only", "-w",
+        from . import buildcfg
+        cfg = buildcfg.project_config(self.repo)
+        unity = buildcfg.unity_source(cfg)
+        cmd = ["clang++-14", "-x", "c++", buildcfg.clang_std(cfg)] + buildcfg.clang_args(cfg) + ["-fsyntax-only", "-w",
                "-Xclang", "-ast-dump=json", "-Xclang", "-ast-dump-filter=" + name, "-"]
         r = subprocess.run(cmd, input=unity.encode(), stdout=subprocess.PIPE, stderr=subprocess.PIPE)
         vals = set()
